@@ -221,7 +221,8 @@ pub fn drive<P: Prop>(p: &P, cases: usize, lanes: usize, seed: u64, known: &Know
         let mut handles = vec![];
         for lane in 0..lanes {
             let stop = &stop;
-            handles.push(scope.spawn(move || {
+            let tb = std::thread::Builder::new().name(format!("lane-{}", lane));
+            handles.push(tb.spawn_scoped(scope, move || {
                 let mut stats = Stats::default();
                 let mut harness_err: Option<String> = None;
                 let failed = std::cell::Cell::new(false);
@@ -309,7 +310,7 @@ pub fn drive<P: Prop>(p: &P, cases: usize, lanes: usize, seed: u64, known: &Know
                     }
                 }
                 (stats, fail_case, harness_err)
-            }));
+            }).expect("harness: cannot spawn lane thread"));
         }
         for h in handles {
             match h.join() {
